@@ -94,6 +94,12 @@ def judge(ctx, line, script, ops, impl, sock):
             pass
         else:
             own_close += ncl
+            if ncl and closes_written and own_close <= 1:
+                ctx.violate("at-most-one-own-close-frame", "own-close-after-a-close-frame-was-already-written-" +
+                            ("reply" if a[0] in ("recv", "rdf") else a[0]), inp,
+                            "no close()/auto-reply close frame once a close frame has been written on this connection",
+                            f"step {op} wrote another close frame", size=size)
+        closes_written += ncl
         if own_close > 1:
             ctx.violate("at-most-one-own-close-frame", "second-close-frame-" + ("reply" if a[0] in ("recv", "rdf") else a[0]), inp,
                         "<= 1 close frame on own initiative", f"{own_close} after step {op}", size=size)
@@ -112,8 +118,8 @@ def judge(ctx, line, script, ops, impl, sock):
                 ctx.violate("close-returns-within-timeout", "exceeds-2x-timeout", inp, f"< {2 * t} ms", f"{el} ms", size=size)
             if script in ("silent",) and el != t and not inert:
                 ctx.violate("close-returns-within-timeout", "silent-peer-not-exactly-timeout", inp, f"{t} ms", f"{el} ms", size=size)
-        if res == "X:CLOSED" and a[0] in ("recv", "rdf") and not inert and flags[1] == "0":
-            became_inert = True
+        if res == "X:CLOSED" and a[0] in ("recv", "rdf") and not inert and calls > prev_calls:
+            became_inert = True        # the call read the end of the stream: the connection is lost
         if a[0] == "shutdown":
             became_inert = True
         if became_inert or inert:
